@@ -40,6 +40,8 @@ def model_group(gspec):
             G = mg.ed25519()
         elif kind in ("i1024", "i2048", "i3072"):
             G = mg.shipped_int(kind)
+        elif kind == "int" and gspec.get("pwmap") == "alt":
+            G = mg.MIntGroupAltPw(int(gspec["p"]), int(gspec["q"]), int(gspec["g"]))
         elif kind == "int":
             G = mg.MIntGroup(int(gspec["p"]), int(gspec["q"]), int(gspec["g"]))
         elif kind == "toyed":
@@ -113,6 +115,13 @@ def lib_group(gspec, lib=None):
             G = lib.shipped["ed25519"].group
         elif kind in ("i1024", "i2048", "i3072"):
             G = lib.shipped[kind].group
+        elif kind == "int" and gspec.get("pwmap") == "alt":
+            import hashlib as _h
+
+            class AltPwGroup(lib.groups.IntegerGroup):
+                def password_to_scalar(self, pw):
+                    return int.from_bytes(_h.sha256(b"alt-kdf|" + pw).digest() * 4, "big") % self.q
+            G = AltPwGroup(p=int(gspec["p"]), q=int(gspec["q"]), g=int(gspec["g"]))
         elif kind == "int":
             G = lib.groups.IntegerGroup(p=int(gspec["p"]), q=int(gspec["q"]), g=int(gspec["g"]))
         elif kind == "toyed":
